@@ -204,6 +204,21 @@ def property_checks(inp):
         fr = inp["fraction"]
         dia = psf.encircled_energy(d, fraction=fr)
         A(("reported diameter is where the curve is closest to the fraction", abs(float(xs[numpy.argmin(numpy.abs(ee - fr))]) - dia), 0.0))
+        # the image is the caller's: unchanged afterwards, read-only images are accepted, and analysing one view of a frame does not
+        # change what another view of the same frame gives
+        dcopy = d.copy(); xs_a, ee_a = psf.encircled_energy(dcopy, eeDiameter=False)
+        dro = d.copy(); dro.setflags(write=False)
+        try:
+            xs_r, ee_r = psf.encircled_energy(dro, eeDiameter=False); ro_ok = numpy.array_equal(ee_r, ee_a)
+        except Exception:
+            ro_ok = False
+        frame2 = numpy.zeros((M + 2, M + 2)); frame2[1:-1, 1:-1] = d
+        va, vb = frame2[1:-1, 1:-1], frame2[:M, :M]
+        eb0 = psf.encircled_energy(vb.copy(), eeDiameter=False)[1] if vb.sum() > 0 else None
+        psf.encircled_energy(va, eeDiameter=False)
+        eb1 = psf.encircled_energy(vb, eeDiameter=False)[1] if vb.sum() > 0 else None
+        A(("encircled_energy leaves the image untouched, accepts a read-only image, and views of one frame do not influence each other",
+           0.0 if (numpy.array_equal(dcopy, d) and ro_ok and (eb0 is None or numpy.array_equal(eb0, eb1))) else 1.0, 0.0))
         # a compact image: exactly zero outside a centred disc (a masked PSF core), all energy enclosed well before the last aperture
         for compact in (False, True):
             dd__ = d * pupil.circle(max(1.0, M / 2 * inp.get("support", 0.5)), M) if compact else d
